@@ -1,11 +1,9 @@
 #!/bin/bash
-# all checks against all seeded changes (scratch copies); writes seeded/MATRIX.txt
+# all quick checks against all seeded changes (scratch copies of /repo/src; /repo itself is never touched); writes seeded/MATRIX.txt
+# usage: tools/seeded_matrix.sh [ids...]   (default: every directory under seeded/)
 HERE="$(cd "$(dirname "$0")/.." && pwd)"; cd $HERE
-OUT=seeded/MATRIX.txt; : > $OUT.tmp
-run() { VERIF_NPROC=8 tools/seeded_eval.sh $HERE/seeded/$1 $1 >> $OUT.tmp.$1 2>&1; }
-ids=$(ls seeded | grep -E '^[A-Z0-9_-]+$' | grep -v MATRIX)
-for pair in $(echo $ids | xargs -n2 | tr ' ' ','); do
-  a=${pair%,*}; b=${pair#*,}
-  run $a & if [ "$b" != "$a" ]; then run $b & fi; wait
+ids=${@:-$(ls -d seeded/*/ | xargs -n1 basename)}
+for id in $ids; do
+  VERIF_NPROC=${VERIF_NPROC:-8} tools/seeded_eval.sh $HERE/seeded/$id $id > seeded/.matrix.$id 2>&1
 done
-cat $OUT.tmp.* > $OUT; rm -f $OUT.tmp*
+cat seeded/.matrix.* > seeded/MATRIX.txt; rm -f seeded/.matrix.*
